@@ -105,7 +105,7 @@ Definition st0 : wstate := {| visited := []; events := [] |}.
 
 Section Walk.
   Variable h : heap.
-  Variable recurse_task : bool.
+  Variable edges_of : nat -> node -> list edge.   (* e.g. node_edges recurse_task *)
   Variable cut : nat -> bool.          (* preprocess answers False *)
 
   (* None = out of fuel.  A reference outside the heap is not a Config: ignored. *)
@@ -122,7 +122,7 @@ Section Walk.
           if cut n then Some st1
           else
             match fold_opt (fun e s => visit f (pos ++ fst e) (snd e) s)
-                           (node_edges recurse_task n nd) st1 with
+                           (edges_of n nd) st1 with
             | None => None
             | Some st2 => Some {| visited := visited st2; events := events st2 ++ [(n, pos)] |}
             end
@@ -141,7 +141,7 @@ Section Walk.
     exists nd, nth_error h n = Some nd /\ cut n = false.
 
   Definition out_edges (n : nat) : list edge :=
-    match nth_error h n with Some nd => node_edges recurse_task n nd | None => [] end.
+    match nth_error h n with Some nd => edges_of n nd | None => [] end.
 
   (* path a p b: from a, through expanded nodes only, pushing exactly the keys p, to the
      expanded node b *)
